@@ -643,6 +643,15 @@ func runC10(c *Ctx) {
 	// kind's set must leave the other kind's value alone (C12's R12.1/R12.2)
 	r.Rule("R10.5", "per-cell measurements of differently wrapped renderers coexist in the property store")
 	importPremises(c, "R10.5", "property-store premise ", "nesting or re-wrapping would drop the other wrapper's measurements", func(o *Ob) bool { return o.Rule == "R12.1" || o.Rule == "R12.2" }, func() { runC12(c) })
+	// every render measures afresh: the render-callback pass is made, in full, by every RenderTo (C13's R13.3/R13.5),
+	// so a wrapper kept from earlier and a wrapper made just now lay the same table out the same way
+	importPremises(c, "R10.5", "render-pass premise ", "a render that skips or shortens the callback pass works from whatever an earlier render (through whichever wrapper) left behind", func(o *Ob) bool {
+		return o.Rule == "R13.5" || (o.Rule == "R13.3" && strings.Contains(o.Func, "InvokeRenderCallbacks"))
+	}, func() { runC13(c) })
+	// the auto package hands the style string's sections on as written (C19's R19.2/R19.3)
+	importPremises(c, "R10.2", "style-resolution premise ", "auto.* and the sub-package's own functions would select different renderers or decorations for the same name", func(o *Ob) bool {
+		return (o.Rule == "R19.2" || o.Rule == "R19.3") && !strings.Contains(o.Construct, "premise")
+	}, func() { runC19(c) })
 
 	// R10.1
 	nsites := 0
